@@ -63,7 +63,10 @@ def run_check(copy, pid, tier, extra=()):
                        cwd=VERIF, env=env, stdout=subprocess.PIPE, stderr=subprocess.STDOUT)
     out = p.stdout.decode('utf-8', 'replace')
     sigs = [l[len('violation signature: '):] for l in out.splitlines() if l.startswith('violation signature: ')]
-    return p.returncode, sigs, time.time() - t, out
+    rc = p.returncode
+    if rc == 1 and not any(l.startswith('VIOLATION property=') for l in out.splitlines()):
+        rc = 3      # exit 1 without a VIOLATION line: the check crashed, that is not a detection
+    return rc, sigs, time.time() - t, out
 
 
 def main():
